@@ -196,12 +196,12 @@ func c09Gen(g *Gen) {
 			txs[i] = c09GenTx(g, nacc, style)
 		}
 		outside := false
-		if g.Intn(25) == 0 {
+		if g.Intn(60) == 0 {
 			// outside the assumptions (see registry): a world READ lock, or a world write
 			// locker that never touches the state; only model/implementation are compared
 			outside = true
 			k := g.Intn(n)
-			if g.Intn(8) != 0 {
+			if g.Intn(2) != 0 {
 				txs[k] = fmt.Sprintf("R:r%d,r%d", g.Intn(nacc), g.Intn(nacc))
 			} else {
 				txs[k] = "W:-"
@@ -563,9 +563,17 @@ func (r *c09Runner) Step(toks []string, o *Oracle) string {
 	// A world write locker that commits without any state access never realizes its base; what
 	// later readers of its view then wait for is not modelled (and cannot happen in the service:
 	// the worker calls ctx.UpdateSystemInfo() before Execute). Left out of the ops.
+	// A world READ lock (requested by no handler of the repository) is not serializable in the
+	// real code (a later writer can be observed, see the report) and what exactly the reader sees
+	// depends on world-snapshot internals: also left out.
 	for _, tx := range txs {
-		if len(tx.prog) == 0 && c09Access(tx, 0) == 2 && c09WorldWrite(tx) {
+		if len(tx.prog) == 0 && c09WorldWrite(tx) {
 			return "unsupported"
+		}
+		for _, r := range tx.reqs {
+			if r.world && !r.write {
+				return "unsupported"
+			}
 		}
 	}
 	s := c09Build(nacc, txs)
